@@ -23,8 +23,8 @@ FLOORS = {"reads-compared": 1000, "strings-compared": 100}
 
 def shards(tier, seed):
     if tier == "quick":
-        return [{"n": 2500, "maxops": 12, "part": p} for p in range(16)]
-    return [{"n": 15625, "maxops": 40, "part": p} for p in range(64)]
+        return [{"n": 2500, "maxops": 12, "part": p} for p in range(16)] + [{"sweep": (lo, lo + 275), "part": 100 + lo} for lo in range(0, 2200, 275)]
+    return [{"n": 15625, "maxops": 40, "part": p} for p in range(64)] + [{"sweep": (lo, lo + 1100), "part": 100 + lo} for lo in range(0, 13200, 1100)] + [{"sweep": (c - 3, c + 4), "part": 100 + c} for c in (16384, 32768, 65536)]
 
 
 def gen_history(rng, maxops):
@@ -71,6 +71,24 @@ def expected_text(s, sanitize):
 def run(shard, rec, tier, seed):
     ns = stage.shim()
     rng = random.Random("C04-%d-%d" % (seed, shard["part"]))
+    if "sweep" in shard:
+        # string-length sweep: every length lo..hi through each string writer / reader pair (exact and padded
+        # by 0 / 1 / 7), between two integers, in both modes - block sizes and thresholds meet every length
+        lo, hi = shard["sweep"]
+        for L in range(lo, hi):
+            san = L % 2 == 0
+            pool = "abcXYZ 09\xe9\u20ac" + ("\xff" if san else "")
+            s = "".join(pool[(i * 7 + L) % len(pool)] for i in range(L))
+            enc = "".join(c for c in s)  # '~' never occurs in the pool
+            pad = (0, 1, 7)[L % 3]
+            hist = [("mode", san), ("add_short", 1234), ("add_fixed_string", s, L, False), ("add_fixed_encoded_string", enc, L, False),
+                    ("add_char", 7), ("add_fixed_string", s.replace("\xff", "y"), L + pad, True), ("add_fixed_encoded_string", enc.replace("\xff", "y"), L + pad, True),
+                    ("add_three", 70000), ("add_encoded_string" if L % 4 < 2 else "add_string", s)]
+            run_history(ns, rec, hist)
+            rec.case(("sweep", L))
+            rec.count("string-lengths-swept")
+        rec.seen("string-length-ranges", "%d..%d" % (lo, hi - 1))
+        return
     for _ in range(shard["n"]):
         hist = gen_history(rng, shard["maxops"])
         run_history(ns, rec, hist)
